@@ -1019,6 +1019,56 @@ func ruleLifo(c *engine.Context) *report.Rule {
 					}
 				}
 			}
+			// every popped container is offered to the next step and expanded: the only conditions
+			// inside one iteration (outside the push loops) are the container-kind tests of the popped
+			// value and its children, the receiver's requirement flags, and the error / result tests
+			// after the step — nothing else may skip a container
+			inner := map[*ssa.BasicBlock]bool{}
+			for _, il := range loops {
+				if il != l && l.Blocks[il.Header] {
+					inner[il.Header] = true
+				}
+			}
+			sink := sinkParam(p, fn)
+			nskip := 0
+			for blk := range l.Blocks {
+				ifi, ok := blk.Instrs[len(blk.Instrs)-1].(*ssa.If)
+				if !ok || blk == l.Header || inner[blk] {
+					continue
+				}
+				cond, _ := unwrapNot(ifi.Cond)
+				allowed := false
+				switch x := cond.(type) {
+				case *ssa.Extract:
+					_, allowed = x.Tuple.(*ssa.TypeAssert)
+				case *ssa.UnOp:
+					if base, _, isBool := boolFieldLoad(x); isBool && len(fn.Params) > 0 && base == ssa.Value(fn.Params[0]) {
+						allowed = true
+					}
+				case *ssa.BinOp:
+					if isSinkLenTest(p, x, sink) {
+						allowed = true
+					}
+					for _, side := range []ssa.Value{x.X, x.Y} {
+						if cst, isC := side.(*ssa.Const); isC && cst.IsNil() {
+							other := x.X
+							if other == side {
+								other = x.Y
+							}
+							if types.Identical(other.Type(), p.Roles.RuntimeErrIface) {
+								allowed = true
+							}
+						}
+					}
+				}
+				if !allowed {
+					nskip++
+					r.Oblige(false)
+					f := r.Violation(fmt.Sprintf("%s: conditional skip #%d", construct, nskip), p.RelPos(ifi.Cond.Pos()),
+						"inside one iteration of the descent a condition other than the container kind, the step's requirement flags and the step's error / result tests decides what happens to the popped container (%s): some containers of the document may be neither offered to the following step nor expanded", condText(ifi.Cond))
+					engine.Restrict(f, "C08")
+				}
+			}
 			r.Oblige(true)
 			r.Nontrivial++
 		}
